@@ -79,3 +79,28 @@ package federation
 //@   call ShouldIncludeNode ghost okSel[selection] = ret0 && ret1 == nil
 //@   call append#1 assert okSel[selection]
 //@   call mergeSameAlias assert arg0 == included
+
+// ---- C06 (a request is planned and executed against ONE schema): every hop of a request - the sub-query sent to a
+// service and every nested sub-plan - uses the planner the request was planned with, not whatever planner a background
+// refresh has installed in the meantime (key filtering and argument checks would otherwise mix two schema versions).
+//@ func Executor.execute
+//@   call Executor.runOnService assert arg3 == p.Service && arg5 == keys && arg7 == p.SelectionSet && arg9 == planner
+//@ func Executor.execute$1
+//@   call Executor.execute assert arg6 == planner && arg5 == metadata
+//@ func Executor.Execute
+//@   call Executor.execute assert arg3 == plan && arg5 == metadata && arg6 == planner
+
+// ---- C06 (the gateway's bookkeeping never reaches the client): deleteKey removes the key from an object AND descends into
+// every value of the object and every element of a list - objects handed to one service may contain objects handed to another.
+//@ func deleteKey
+//@   ghost seenElem map[int]bool
+//@   ghost seenVal map[string]bool
+//@   call deleteKey#1 assert arg0 == v[rangeindex+1] && arg1 == k
+//@   call deleteKey#1 ghost seenElem[rangeindex+1] = true
+//@   call deleteKey#2 assert arg1 == k
+//@   call deleteKey#2 ghost seenVal[rangekey] = true
+//@   call delete assert arg1 == k
+//@   loop 1 invariant forall i int :: 0 <= i && i <= rangeindex ==> seenElem[i]
+//@   loop 2 invariant forall s string :: visited[s] ==> seenVal[s]
+//@   ensures (v is map[string]interface{}) ==> (forall s string :: (s in v.(map[string]interface{})) ==> seenVal[s])
+//@   ensures (v is []interface{}) ==> (forall i int :: 0 <= i && i < len(v.([]interface{})) ==> seenElem[i])
